@@ -62,6 +62,8 @@ type pxWorld struct {
 	disconnects []string
 	ser         bool
 	served      chan struct{}
+	// slowDial, if set, makes a dial of "tarpit" block until it is closed, and then fail.
+	slowDial chan struct{}
 }
 
 func newPxWorld(ser bool, rewrite goat.RpcIntercepter) *pxWorld {
@@ -70,6 +72,13 @@ func newPxWorld(ser bool, rewrite goat.RpcIntercepter) *pxWorld {
 	w.cancel = cancel
 	w.Proxy = goat.NewProxy(ctx, "px",
 		func(id string) (goat.RpcReadWriter, error) {
+			w.mu.Lock()
+			sd := w.slowDial
+			w.mu.Unlock()
+			if id == "tarpit" && sd != nil {
+				<-sd
+				return nil, fmt.Errorf("dial of %q failed after a long time", id)
+			}
 			w.mu.Lock()
 			defer w.mu.Unlock()
 			w.dials = append(w.dials, id)
@@ -122,6 +131,8 @@ type C16Env struct {
 	Next []string `json:"next,omitempty"` // return route (last element is the next hop)
 	Rec  []string `json:"rec,omitempty"`  // route record so far
 	Tok  int      `json:"tok"`
+	// Spec, if set, supplies everything but the routing fields: status, body, trailer, reset, header metadata, method
+	Spec *RpcSpec `json:"spec,omitempty"`
 }
 
 type C16Case struct {
@@ -169,6 +180,10 @@ func genC16(t *rapid.T) C16Case {
 		}
 		if rapid.IntRange(0, 4).Draw(t, "rec") == 0 {
 			e.Rec = []string{"upstream"}
+		}
+		if rapid.Bool().Draw(t, "full") {
+			sp := genRpcSpec(t, 512, true)
+			e.Spec = &sp
 		}
 		c.Envs = append(c.Envs, e)
 	}
@@ -226,6 +241,12 @@ func (c C16Case) model() []pxDelivery {
 }
 
 func c16Build(e C16Env) *kit.Rpc {
+	if e.Spec != nil {
+		r := e.Spec.Build()
+		r.Id = uint64(1000 + e.Tok)
+		r.Header.Source, r.Header.Destination, r.Header.ProxyNext, r.Header.ProxyRecord = e.From, e.To, e.Next, e.Rec
+		return r
+	}
 	return &kit.Rpc{Id: uint64(1000 + e.Tok), Header: &goatorepo.RequestHeader{Method: "/x/y", Source: e.From, Destination: e.To, ProxyNext: e.Next, ProxyRecord: e.Rec,
 		Headers: []*goatorepo.KeyValue{{Key: "tok", Value: fmt.Sprint(e.Tok)}}}, Body: &goatorepo.Body{Data: []byte{byte(e.Tok), 0x16}}}
 }
@@ -341,12 +362,15 @@ func execC16(t *testing.T, c C16Case) (v Verdict) {
 			if strings.Join(h.GetProxyNext(), ",") != strings.Join(d.next, ",") {
 				v.failf("tok %d: return route %v, want %v", d.tok, h.GetProxyNext(), d.next)
 			}
-			if h.GetDestination() != d.dst || h.GetMethod() != "/x/y" {
-				v.failf("tok %d: header destination %q method %q, want %q /x/y", d.tok, h.GetDestination(), h.GetMethod(), d.dst)
+			if h.GetDestination() != d.dst {
+				v.failf("tok %d: header destination %q, want %q", d.tok, h.GetDestination(), d.dst)
 			}
+			// unchanged except for the routing fields
 			orig := c16Build(e)
-			if !proto.Equal(g.GetBody(), orig.GetBody()) || len(h.GetHeaders()) != 1 || h.GetHeaders()[0].GetValue() != fmt.Sprint(d.tok) || g.GetStatus() != nil || g.GetTrailer() != nil || g.GetReset_() != nil {
-				v.failf("tok %d: envelope changed in transit beyond its routing fields", d.tok)
+			norm := proto.Clone(g).(*kit.Rpc)
+			norm.Header.Destination, norm.Header.ProxyNext, norm.Header.ProxyRecord = orig.Header.Destination, orig.Header.ProxyNext, orig.Header.ProxyRecord
+			if !proto.Equal(norm, orig) {
+				v.failf("tok %d: envelope changed in transit beyond its routing fields:\n got  %s\n sent %s", d.tok, truncStr(norm.String()), truncStr(orig.String()))
 			}
 		}
 	}
